@@ -67,7 +67,8 @@ def run(prog: Program, rep, thorough: bool) -> None:
     rep.rule('C19.R2', 'constructor rejections', 3)
     rep.rule('C19.R3', 'row-based entry forwards the right roles', 2)
     mun = prog.module(C.M_MUN)
-    ev = Evaluator(prog, hooks=C.pref_hooks(prog))
+    from ..abseval import DictVal
+    ev = Evaluator(prog, hooks={'inst_dict': lambda ev_, inst, st_: DictVal({}), **C.pref_hooks(prog)})
     ga = prog.func(C.M_MUN, 'Sight.get_adjustment')
     gta = prog.func(C.M_MUN, 'Sight.get_trajectory_adjustment')
     init = prog.func(C.M_MUN, 'Sight.__init__')
